@@ -3,6 +3,7 @@ package billstat
 //verif:pkg internal/billstat
 
 import (
+	"fmt"
 	"context"
 	"errors"
 	"time"
@@ -62,7 +63,15 @@ func (u *verifUploader) Upload(_ context.Context, records Records) error {
 		u.g.record(verifChoice(2))
 	}
 	if u.fail {
-		return errors.New("upload failed")
+		// the kinds of failure the backend client produces
+		switch verifChoice(3) {
+		case 0:
+			return errors.New("upload failed")
+		case 1:
+			return fmt.Errorf("uploading: %w", context.DeadlineExceeded)
+		default:
+			return fmt.Errorf("uploading: %w", context.Canceled)
+		}
 	}
 	for k, id := range u.g.devs {
 		if rec := records[id]; rec != nil {
@@ -96,7 +105,7 @@ func (g *verifC16) check() {
 // over all histories of records and upload attempts, including records that arrive
 // while an upload is in flight.
 //
-//verif:harness name=H16a-history tier=quick bounds="2 devices, 3 steps from {record(device), refresh ok/fail with 0..2 records arriving during the upload}; time, ASN, country bytes and protocol symbolic" reach=done,upload-failed,upload-ok,inflight maxpaths=300000
+//verif:harness name=H16a-history tier=quick bounds="2 devices, 3 steps from {record(device), refresh ok/fail (generic error, deadline exceeded or cancelled) with 0..2 records arriving during the upload}; time, ASN, country bytes and protocol symbolic" reach=done,upload-failed,upload-ok,inflight maxpaths=300000
 //verif:assume fewer than 2^31 queries per device between uploads (Queries is int32); records arriving during an upload are serialised inside Upload (the shared state is mutex-protected, so every interleaving of the atomic sections is equivalent to such a sequence)
 func VerifC16History() { verifC16History(3) }
 
